@@ -271,4 +271,82 @@ theorem writeTable_eq (cfg : SstCfg) (kvs : List KV) (hs : StrictAsc cfg.cmp kvs
   rw [accepted_ascending cfg.cmp kvs hs] at h1
   exact (close_spec cfg kvs _ h1).1
 
+/-! ## the property-level statements of C15 -/
+
+theorem writer_accepts_iff_ascending (cfg : SstCfg) (cs : List Call) (key : Bytes) (value : GoBytes) :
+    let w := ((SstW.open cfg).run cfg cs).1
+    let acc := accepted cfg.cmp cs
+    ((w.writeNext cfg key value .none).2 = .ok ↔
+      (acc = [] ∨ ∃ l, acc.getLast? = some l ∧ cfg.cmp l.1 key = .lt)) ∧
+    ((w.writeNext cfg key value .none).2 ≠ .ok →
+      (w.writeNext cfg key value .none).1 = w ∧
+      ((w.writeNext cfg key value .none).2 = .dup ∨ (w.writeNext cfg key value .none).2 = .desc)) := by
+  intro w acc
+  obtain ⟨hinv, _⟩ := run_open_spec cfg cs
+  have hres := (writeNext_spec cfg acc w ⟨key, value, .none⟩ hinv).2
+  simp only at hres
+  have hoc := orderCheck_eq cfg acc w hinv key
+  constructor
+  · rw [hres]
+    unfold specRes
+    cases hgl : acc.getLast? with
+    | none => simp [(getLast?_none_iff _).mp hgl]
+    | some l =>
+      have hne : acc ≠ [] := by intro h; rw [h] at hgl; cases hgl
+      cases hc : cfg.cmp l.1 key <;> simp [hne, hc]
+  · intro hne
+    unfold SstW.writeNext at hne ⊢
+    rw [hoc] at hne ⊢
+    cases hgl : acc.getLast? with
+    | none =>
+      exfalso; apply hne
+      rw [hgl]
+      exact (writeBody_spec cfg acc w key value .none hinv).2
+    | some l =>
+      rw [hgl] at hne
+      cases hc : cfg.cmp l.1 key with
+      | eq => simp [hc]
+      | gt => simp [hc]
+      | lt =>
+        exfalso; apply hne
+        simp only [hc]
+        exact (writeBody_spec cfg acc w key value .none hinv).2
+
+/-- two writer states that satisfy the invariant for the same accepted pairs cannot be told apart by any
+continuation program, by `Close`, or by the metadata -/
+theorem SInv_indistinguishable (cfg : SstCfg) (acc : List KV) (w w' : SstW) (h : SInv cfg acc w) (h' : SInv cfg acc w')
+    (cs : List Call) :
+    (w'.run cfg cs).2 = (w.run cfg cs).2 ∧ (w'.run cfg cs).1.close = (w.run cfg cs).1.close ∧
+    (w'.run cfg cs).1.finalMeta = (w.run cfg cs).1.finalMeta := by
+  obtain ⟨i1, r1⟩ := run_spec cfg cs acc w h
+  obtain ⟨i2, r2⟩ := run_spec cfg cs acc w' h'
+  obtain ⟨c1, m1⟩ := close_spec cfg _ _ i1
+  obtain ⟨c2, m2⟩ := close_spec cfg _ _ i2
+  exact ⟨by rw [r1, r2], by rw [c1, c2], by rw [m1, m2]⟩
+
+theorem fault_rolled_back (cfg : SstCfg) (cs : List Call) (key : Bytes) (value : GoBytes) (f : Fault)
+    (hf : f ≠ .none) (cs' : List Call) :
+    let w := ((SstW.open cfg).run cfg cs).1
+    let w' := (w.writeNext cfg key value f).1
+    (w.writeNext cfg key value f).2 ≠ .ok ∧
+    w'.close = w.close ∧ w'.finalMeta = w.finalMeta ∧
+    (w'.run cfg cs').2 = (w.run cfg cs').2 ∧
+    (w'.run cfg cs').1.close = (w.run cfg cs').1.close ∧
+    (w'.run cfg cs').1.finalMeta = (w.run cfg cs').1.finalMeta := by
+  intro w w'
+  obtain ⟨hinv, _⟩ := run_open_spec cfg cs
+  obtain ⟨hinv', hres⟩ := writeNext_spec cfg (accepted cfg.cmp cs) w ⟨key, value, f⟩ hinv
+  have hstep : acceptStep cfg.cmp (accepted cfg.cmp cs) ⟨key, value, f⟩ = accepted cfg.cmp cs := by
+    unfold acceptStep; simp [hf]
+  rw [hstep] at hinv'
+  refine ⟨?_, ?_, ?_, SInv_indistinguishable cfg _ w w' hinv hinv' cs'⟩
+  · simp only at hres
+    rw [hres]
+    unfold specRes
+    cases (accepted cfg.cmp cs).getLast? with
+    | none => simp [hf]
+    | some l => cases hc : cfg.cmp l.1 key <;> simp [hf, hc]
+  · exact (SInv_indistinguishable cfg _ w w' hinv hinv' []).2.1
+  · exact (SInv_indistinguishable cfg _ w w' hinv hinv' []).2.2
+
 end SST.Proofs.Sst
